@@ -295,6 +295,11 @@ func TestC30(t *testing.T) {
 	}
 
 	if env.Replay != "" {
+		var probe lambdaCrashCase
+		if err := vkit.ReadReplay(env.Replay, &probe); err == nil && probe.CrashAt != "" {
+			c30Crash(t, env, rec, &probe)
+			return
+		}
 		var lc lambdaCase
 		if err := vkit.ReadReplay(env.Replay, &lc); err != nil {
 			t.Fatal(err)
@@ -326,6 +331,9 @@ func TestC30(t *testing.T) {
 			}
 		}
 		run(lc)
+	}
+	if env.Batch == 0 {
+		c30Crash(t, env, rec, nil) // the same promise across a crash of the instance (lambda_crash_test.go)
 	}
 }
 
